@@ -139,7 +139,7 @@ pub fn n1() -> Design {
                 ("string".into(), Plist::s(s)),
             ])
         };
-        ms.info.extra.push(("openTypeNameRecords".into(), Plist::Array(vec![rec(300, "Weight"), rec(301, "Weight"), rec(302, "Weight"), rec(303, "Fam")])));
+        ms.info.extra.push(("openTypeNameRecords".into(), Plist::Array(vec![rec(256, "Weight"), rec(257, "Weight"), rec(300, "Weight"), rec(258, "Fam")])));
     }
     d.instances = vec![
         Instance { family: None, style: "Fam".into(), ps_name: None, user_loc: vec![400.0] },
